@@ -481,6 +481,16 @@ func knownSigsEnv(id string) string {
 
 // ---------------------------------------------------------------- finish
 
+// artefactDir is where evidence and replay files go: /verif itself, except when the
+// run is pointed at another tree with VERIF_REPO (seeded-change experiments), which
+// must not overwrite the evidence of /repo.
+func artefactDir() string {
+	if repoDir == "/repo" {
+		return verifDir
+	}
+	return filepath.Join(verifDir, ".build", "alt", filepath.Base(filepath.Dir(repoDir))+"-"+filepath.Base(repoDir))
+}
+
 func sigFile(sig string) string {
 	return fmt.Sprintf("%016x", core.HashString(sig))
 }
@@ -510,7 +520,7 @@ func (a *agg) finish(p *propCfg, start time.Time, rp *replayReq) int {
 			continue
 		}
 		nViol++
-		dir := filepath.Join(verifDir, "replays", a.id)
+		dir := filepath.Join(artefactDir(), "replays", a.id)
 		os.MkdirAll(dir, 0o755)
 		path := filepath.Join(dir, sigFile(s)+".json")
 		rf := core.ReplayFile{Property: a.id, Monitor: v.Monitor, Sig: s, Detail: v.Detail, Seed: seed(), Tier: a.tier, Case: v.Case}
@@ -600,8 +610,8 @@ func (a *agg) finish(p *propCfg, start time.Time, rp *replayReq) int {
 		"violations":  nViol,
 	}
 	raw, _ := json.MarshalIndent(ev, "", " ")
-	os.MkdirAll(filepath.Join(verifDir, "evidence"), 0o755)
-	os.WriteFile(filepath.Join(verifDir, "evidence", a.id+".json"), append(raw, '\n'), 0o644)
+	os.MkdirAll(filepath.Join(artefactDir(), "evidence"), 0o755)
+	os.WriteFile(filepath.Join(artefactDir(), "evidence", a.id+".json"), append(raw, '\n'), 0o644)
 
 	status := "held on what was observed"
 	code := 0
